@@ -32,7 +32,7 @@ ASSUMPTIONS = [
     "voter sets are recorded as a probe only: the statement promises ballots and weights",
 ]
 REAL_VS_STUB = "real: votekit loaders, pandas, csv, the real file system (private scratch directory under $TMPDIR); no stub"
-NAMES = ["Ann", "Bob Lee", "O'Hara", 'Z "Zed" Z', "x,y", "Ünal", "de la Cruz", "A-1", "q;r", "p|s", "Mc Tab"]
+NAMES = ["Ann", "Bob Lee", "O'Hara", 'Z "Zed" Z', "x,y", "Ünal", "de la Cruz", "A-1", "q;r", "p|s", "Mc Tab", "A\\B", "AB", "N\\A", "c:\\d", "e#f"]
 DELIMS = [",", ";", "|", "\t"]
 
 
@@ -185,7 +185,7 @@ def gen_csv(rng):
     fault = G.wchoice(rng, [(None, 70), ("missing", 5), ("zero_byte", 4), ("header_only", 4), ("blank_id", 8 if has_id else 0), ("dup_id", 8 if has_id else 0)])
     case = {"kind": "csv", "header": header, "layout": [t for t, _ in layout], "rows": rows, "delim": delim, "crlf": rng.random() < 0.3,
             "rank_cols": rank_cols, "id_col": [t for t, _ in layout].index("id") if has_id else None,
-            "reuse": rng.random() < 0.3, "weight_col": [t for t, _ in layout].index("weight") if has_w else None, "fault": fault, "fault_row": rng.randrange(nrows), "fault_row2": rng.randrange(nrows), "id_style": id_style if has_id else None}
+            "reuse": rng.random() < 0.3, "default_delimiter": rng.random() < 0.5, "weight_col": [t for t, _ in layout].index("weight") if has_w else None, "fault": fault, "fault_row": rng.randrange(nrows), "fault_row2": rng.randrange(nrows), "id_style": id_style if has_id else None}
     return case
 
 
@@ -266,8 +266,8 @@ def run_csv(case, scratch):
         kw["id_col"] = case["id_col"]
     if case["weight_col"] is not None:
         kw["weight_col"] = case["weight_col"]
-    if case["delim"] != "," or True:
-        kw["delimiter"] = case["delim"]
+    if case["delim"] != "," or not case.get("default_delimiter"):
+        kw["delimiter"] = case["delim"]  # a comma file is loaded both with delimiter="," and with the argument left out
     prof, exc = None, None
     with seams.quiet():
         try:
